@@ -22,7 +22,7 @@ PROPS = {
     'C03': P('proof', ['C03'], 'transfer curves: identity/alias theorems, anchors by kernel evaluation, accuracy theorems as listed + correspondence on all 19 transfer values + f64 oracle search', partial=['accuracy 2.5e-4 (PQ 5.7e-4) over all floats of [0,1] for the 13 non-trivial curves: not proved; covered by bit-exact correspondence + f64 oracle (exhaustive in the thorough tier)']),
     'C04': P('proof', ['C04'], 'XYB forward: theorems + correspondence + f64 oracle'),
     'C05': P('proof', ['C05'], 'XYB round trip: theorems + correspondence + f64 oracle'),
-    'C06': P('proof', ['C06'], 'primaries conversion: theorems (identical primaries bit-exact, evaluated matrices) + correspondence on all 14 primaries + f64 CIE oracle', partial=['accuracy against the exact CIE derivation over [-0.5,2]^3: not proved; correspondence + f64 oracle']),
+    'C06': P('proof', ['C06'], 'primaries conversion: theorems (identical primaries bit-exact, evaluated matrices) + correspondence on all 14 primaries + f64 CIE oracle', partial=['there-and-back within 1e-5 for every pixel: evaluated for white only; correspondence + f64 oracle']),
     'C07': P('proof', ['C07'], 'no UB: loop-safety invariants, constructor invariant, exp2 argument range for every bit pattern + outcome-class correspondence with hook assertions'),
     'C08': P('proof', ['C08'], 'lossless code round trip: theorems + correspondence + exhaustive 8-bit search in the thorough tier'),
     'C09': P('proof', ['C09'], 'YUV->XYB->YUV budget: dims/config theorems, numeric budget partial (see partial) + correspondence + search', partial=['numeric budget max(1,0.015*(2^n-1)): not proved; correspondence + oracle']),
